@@ -127,6 +127,19 @@ func opTypes(reqs []creq) string {
 
 // runFaulted plays a session with one fault scheduled at filesystem operation index k.
 func runFaulted(sc faultScenario, k int, kind string) (obs string, nops int, hit string) {
+	fl := map[int]string{}
+	if k >= 0 {
+		fl[k] = kind
+	}
+	obs, nops, hits, _ := runFaultedSet(sc, fl)
+	if len(hits) > 0 {
+		hit = hits[0]
+	}
+	return
+}
+
+// runFaultedSet plays a session with faults scheduled at several filesystem operation indexes.
+func runFaultedSet(sc faultScenario, fl map[int]string) (obs string, nops int, hits []string, hitIdx []int) {
 	withTempRoot(func(root string) {
 		if err := sc.t.materialize(root); err != nil {
 			obs = "materialize-failed"
@@ -134,16 +147,17 @@ func runFaulted(sc faultScenario, k int, kind string) (obs string, nops int, hit
 		}
 		env := newConnEnv(root, sc.aw, 4096)
 		defer env.close()
-		if k >= 0 {
+		for k, kind := range fl {
 			env.rec.faults[k] = kind
 		}
 		line := env.runSession(sc.reqs, false)
 		nops = env.rec.ops
-		if len(env.rec.hit) > 0 {
-			hit = env.rec.hit[0]
-		}
+		hits = append(hits, env.rec.hit...)
+		hitIdx = append(hitIdx, env.rec.hitIdx...)
 		// the server keeps serving: a fresh connection still gets an answer
-		delete(env.rec.faults, k)
+		for k := range fl {
+			delete(env.rec.faults, k)
+		}
 		probe := env.runSession([]creq{{op: opStatFile, path: "/"}}, false)
 		alive := "alive=1"
 		if !strings.HasPrefix(probe, "r0=0000") {
@@ -201,6 +215,34 @@ func c13Stream(o *out, r *rng, thorough bool) {
 				caseLine := fmt.Sprintf("c13 %s %s %s|%s", opTypes(sc.reqs), effectiveKind(kind, hit), strings.ReplaceAll(base, " ", ";"), strings.ReplaceAll(obs, " ", ";"))
 				o.emit(caseLine, "ok", "", fmt.Sprintf("%s:%d:%s", sc.name, k, kind))
 			}
+		}
+		// random pairs of faults: what the first one leaves behind (a retried read, a half-filled buffer,
+		// a fallback path) is where the second one strikes
+		pairs := 10
+		if thorough {
+			pairs = 150
+		}
+		kinds := []string{"err", "short", "nerr"}
+		for p := 0; p < pairs && nops >= 2; p++ {
+			k1 := r.intn(nops - 1)
+			k2 := k1 + 1 + r.intn(min(5, nops-1-k1))
+			kd1, kd2 := kinds[r.intn(3)], kinds[r.intn(3)]
+			fl := map[int]string{k1: kd1, k2: kd2}
+			obs, _, hits, hitIdx := runFaultedSet(sc, fl)
+			if len(hits) == 0 {
+				continue
+			}
+			// "a short read changes nothing" can only be demanded when every fault that struck was one
+			eff := "short"
+			for i, h := range hits {
+				if effectiveKind(fl[hitIdx[i]], h) != "short" {
+					eff = "err"
+				}
+			}
+			o.count("scenario:" + sc.name)
+			o.count(fmt.Sprintf("fault-pair:%d", len(hits)))
+			caseLine := fmt.Sprintf("c13 %s %s %s|%s", opTypes(sc.reqs), eff, strings.ReplaceAll(base, " ", ";"), strings.ReplaceAll(obs, " ", ";"))
+			o.emit(caseLine, "ok", "", fmt.Sprintf("%s:pair:%d:%s:%d:%s", sc.name, k1, kd1, k2, kd2))
 		}
 		// ways of ending the connection at every point of the history: abrupt close after i requests
 		for i := 0; i <= len(sc.reqs); i++ {
